@@ -800,6 +800,9 @@ func (w *ttWriter) attrs(a tvAttrs) string {
 	// attribute order is free
 	for i := len(parts) - 1; i > 0; i-- {
 		j := w.r.intn(i + 1)
+		if i != j {
+			ttFree("attr_order.inline")
+		}
 		parts[i], parts[j] = parts[j], parts[i]
 	}
 	return strings.Join(parts, "")
@@ -814,6 +817,11 @@ func (w *ttWriter) nl(depth int) {
 func (w *ttWriter) br() string {
 	return w.r.pick("<"+w.el+"br/>", "<"+w.el+"br/>", "<"+w.el+"br />", "<"+w.el+"br></"+w.el+"br>")
 }
+
+// per-freedom counters of the renderer (moved into the runner's distribution by the suite)
+var ttFreedoms = map[string]int{}
+
+func ttFree(k string) { ttFreedoms[k]++ }
 
 func renderTTML(r *rng, d *ttDoc, rd ttRendering) string {
 	w := &ttWriter{r: r, rd: rd}
@@ -836,17 +844,43 @@ func renderTTML(r *rng, d *ttDoc, rd ttRendering) string {
 			w.b.WriteString("\n")
 		}
 	}
-	w.b.WriteString("<" + w.el + "tt" + decl)
+	// the root's attributes in any order; the name-space declarations stay first (they are attributes too)
+	var rootParts []string
 	if d.HasLang {
-		w.b.WriteString(w.attr("xml:lang", d.LangAttr))
+		rootParts = append(rootParts, w.attr("xml:lang", d.LangAttr))
+		if len(d.LangAttr) > 2 {
+			ttFree("lang.subtag")
+		}
 	}
 	if d.HasFrameRate {
-		w.b.WriteString(w.attr(w.par+"frameRate", strconv.Itoa(d.FrameRate)))
+		rootParts = append(rootParts, w.attr(w.par+"frameRate", strconv.Itoa(d.FrameRate)))
+		if d.FrameRate == 0 {
+			ttFree("root.frameRate.zero_written")
+		}
 	}
 	if d.TickRate != 0 {
-		w.b.WriteString(w.attr(w.par+"tickRate", strconv.Itoa(d.TickRate)))
+		rootParts = append(rootParts, w.attr(w.par+"tickRate", strconv.Itoa(d.TickRate)))
+	} else if r.chance(1, 6) {
+		rootParts = append(rootParts, w.attr(w.par+"tickRate", "0"))
+		ttFree("root.tickRate.zero_written")
 	}
-	w.b.WriteString(">")
+	for i := len(rootParts) - 1; i > 0; i-- {
+		j := r.intn(i + 1)
+		if i != j {
+			ttFree("root.attr_order")
+		}
+		rootParts[i], rootParts[j] = rootParts[j], rootParts[i]
+	}
+	if r.chance(1, 2) {
+		w.b.WriteString("<" + w.el + "tt" + decl + strings.Join(rootParts, "") + ">")
+	} else {
+		w.b.WriteString("<" + w.el + "tt" + strings.Join(rootParts, "") + decl + ">")
+		ttFree("root.declarations_last")
+	}
+	ttFree("prefix." + strconv.Itoa(rd.Prefix))
+	if rd.Indent != "" {
+		ttFree("indent.structure")
+	}
 	idAttr := func() string { return r.pick("xml:id", "xml:id", "xml:id", "id") }
 	hasHead := len(d.V.Styles) > 0 || len(d.V.Regions) > 0 || d.V.Title != "" || d.V.Copyright != "" || r.chance(1, 2)
 	if hasHead {
@@ -861,6 +895,7 @@ func renderTTML(r *rng, d *ttDoc, rd ttRendering) string {
 					items := []int{0, 1}
 					if r.chance(1, 2) {
 						items = []int{1, 0}
+						ttFree("metadata.copyright_first")
 					}
 					for _, k := range items {
 						name, v := "title", d.V.Title
@@ -911,9 +946,16 @@ func renderTTML(r *rng, d *ttDoc, rd ttRendering) string {
 				}
 			}
 		}
-		order := [][]int{{0, 1, 2}, {1, 2, 0}, {2, 1, 0}, {0, 2, 1}}[r.intn(4)]
-		for _, k := range order {
+		oi := r.intn(6)
+		order := [][]int{{0, 1, 2}, {0, 2, 1}, {1, 0, 2}, {1, 2, 0}, {2, 0, 1}, {2, 1, 0}}[oi]
+		ttFree("sections.order." + strconv.Itoa(oi))
+		for n, k := range order {
 			section(k)
+			if n < 2 && r.chance(1, 10) {
+				// character data between sections (not indentation): the reader must not care
+				w.b.WriteString(w.escText(r.pick("note", "x", "--", "é")))
+				ttFree("head.text_between_sections")
+			}
 		}
 		w.nl(1)
 		w.b.WriteString("</" + w.el + "head>")
@@ -938,9 +980,17 @@ func renderTTML(r *rng, d *ttDoc, rd ttRendering) string {
 		}
 		for i := len(parts) - 1; i > 0; i-- {
 			j := r.intn(i + 1)
+			if i != j {
+				ttFree("attr_order.p")
+			}
 			parts[i], parts[j] = parts[j], parts[i]
 		}
-		w.b.WriteString(strings.Join(parts, "") + w.attrs(cu.V.A) + ">")
+		if r.chance(1, 2) {
+			w.b.WriteString(strings.Join(parts, "") + w.attrs(cu.V.A) + ">")
+		} else {
+			w.b.WriteString(w.attrs(cu.V.A) + strings.Join(parts, "") + ">")
+			ttFree("attr_order.p.inline_first")
+		}
 		w.renderContent(cu)
 		w.b.WriteString("</" + w.el + "p>")
 	}
